@@ -180,10 +180,21 @@ func c20CheckScan(c *kit.Case, d *gen.Doc, truth []c20Obj, xf *kit.XFile, data [
 
 var c20EOLEndstream = regexp.MustCompile(`[\r\n]endstream`)
 
-// c20Updated appends an incremental update to d and damages the update's
-// cross-reference section.
-func c20Updated(c *kit.Case, d *gen.Doc, truth []c20Obj, xf *kit.XFile) {
-	rng := c.Rng
+type c20NewDef struct {
+	ref        pdf.Reference
+	val        pdf.Object
+	start, end int
+}
+
+type c20Update struct {
+	data                                  []byte
+	defs                                  []c20NewDef
+	updStart, xrefStart, trailerStart, sx int
+}
+
+// c20AppendUpdate appends an incremental update (1-4 objects defined again or
+// new, a cross-reference table, a trailer with /Prev) to a Writer file.
+func c20AppendUpdate(rng *kit.Rand, d *gen.Doc, truth []c20Obj, xf *kit.XFile) *c20Update {
 	protected := map[uint32]bool{}
 	for _, k := range []string{"Root", "Info", "Encrypt"} {
 		if ref, ok := xf.Trailer[k].(kit.XRef); ok {
@@ -202,18 +213,13 @@ func c20Updated(c *kit.Case, d *gen.Doc, truth []c20Obj, xf *kit.XFile) {
 			protected[t.lenRef.Num] = true
 		}
 	}
-	type newDef struct {
-		ref        pdf.Reference
-		val        pdf.Object
-		start, end int
-	}
 	upd := bytes.Clone(d.Data)
 	if n := len(upd); n > 0 && upd[n-1] != '\n' && upd[n-1] != '\r' {
 		upd = append(upd, '\n')
 	}
 	updStart := len(upd)
 	st := &kit.XStyle{Rng: rng, Plain: true}
-	var defs []newDef
+	var defs []c20NewDef
 	var rows []string
 	ndefs := 1 + rng.Intn(4)
 	used := map[uint32]bool{}
@@ -241,11 +247,11 @@ func c20Updated(c *kit.Case, d *gen.Doc, truth []c20Obj, xf *kit.XFile) {
 		upd = append(upd, b.Bytes()...)
 		end := len(upd)
 		upd = append(upd, '\n')
-		defs = append(defs, newDef{pdf.NewReference(ref.Num, ref.Gen), gen.FromX(v), start, end})
+		defs = append(defs, c20NewDef{pdf.NewReference(ref.Num, ref.Gen), gen.FromX(v), start, end})
 		rows = append(rows, fmt.Sprintf("%d 1\n%010d %05d n \n", ref.Num, start, ref.Gen))
 	}
 	if len(defs) == 0 {
-		return
+		return nil
 	}
 	xrefStart := len(upd)
 	tr := kit.XDict{}
@@ -270,6 +276,18 @@ func c20Updated(c *kit.Case, d *gen.Doc, truth []c20Obj, xf *kit.XFile) {
 	upd = append(upd, b.Bytes()...)
 	sx := bytes.LastIndex(upd, []byte("startxref"))
 
+	return &c20Update{upd, defs, updStart, xrefStart, trailerStart, sx}
+}
+
+// c20Updated appends an incremental update to d and damages the update's
+// cross-reference section.
+func c20Updated(c *kit.Case, d *gen.Doc, truth []c20Obj, xf *kit.XFile) {
+	u := c20AppendUpdate(c.Rng, d, truth, xf)
+	if u == nil {
+		return
+	}
+	rng := c.Rng
+	upd, defs, updStart, xrefStart, trailerStart, sx := u.data, u.defs, u.updStart, u.xrefStart, u.trailerStart, u.sx
 	// the model: newest complete definition of every reference
 	check := func(data []byte, what string) {
 		avail := len(data)
